@@ -62,9 +62,125 @@ def _reads(st):
     return False
 
 
-def nested_decode_sites(body):
+def _strip_value(e):
+    """drop casts, parentheses, references, derefs, `.clone()`/`.into()` around an expression"""
+    while is_node(e):
+        if e[0] in ("cast", "paren"):
+            e = e[1]
+        elif e[0] == "ref":
+            e = e[2]
+        elif e[0] == "un" and e[1] == "*":
+            e = e[2]
+        elif e[0] == "mcall" and e[2] in ("clone", "into", "to_owned") and not e[4]:
+            e = e[1]
+        elif e[0] == "try":
+            e = e[1]
+        else:
+            break
+    return e
+
+
+def _ident(e):
+    e = _strip_value(e)
+    if is_node(e) and e[0] == "path" and re.fullmatch(r"[A-Za-z_]\w*", e[1] or ""):
+        return e[1]
+    return None
+
+
+def _stmts_of(body):
+    return body if isinstance(body, list) and (not body or not isinstance(body[0], str)) else [["expr", body, False]]
+
+
+def encoded_len_helpers(items):
+    """private helpers whose result is the re-serialised byte length of one of their parameters:
+           fn h(x: &E, ..) -> N { let mut tmp = <fresh Vec>; x.write_le(&mut tmp); tmp.len() [as N] }
+    in any spelling (the length bound to a local first, `return`, casts, a method with `self` as the measured value).
+    Returns {fn name: index of the measured parameter} (for methods the receiver is parameter 0)."""
+    out = {}
+    for it in items:
+        if it["k"] not in ("fn", "method") or not it.get("body") or not it.get("sig"):
+            continue
+        if it["k"] == "method" and it.get("trait"):
+            continue
+        params = []
+        for pat, _ty in it["sig"].get("inputs", []):
+            if is_node(pat) and pat[0] == "pident":
+                params.append(pat[1])
+            elif isinstance(pat, str):
+                params.append(pat)
+            else:
+                params.append(None)
+        if it["k"] == "method" and (not params or params[0] != "self"):
+            if "self" in render(it["body"]):
+                params = ["self"] + params
+        stmts = _stmts_of(it["body"])
+        if not (2 <= len(stmts) <= 6):
+            continue
+        fresh, wrote, lens = set(), {}, {}
+        ok = True
+        tail = None
+        for st in stmts:
+            if st[0] == "let" and is_node(st[1]) and st[1][0] == "pident" and st[2] is not None:
+                init = _strip_value(st[2])
+                if is_node(init) and (init[0] == "call" and re.search(r"(^|::)(Vec(::<[^>]*>)?::(new|with_capacity)|Vec::new)$", path_of(init[1]) or "") or init[0] == "macro" and str(init[1]).endswith("vec")):
+                    fresh.add(st[1][1])
+                    continue
+                if is_node(init) and init[0] == "mcall" and init[2] == "len" and _ident(init[1]) in fresh:
+                    lens[st[1][1]] = _ident(init[1])
+                    continue
+                ok = False
+            elif st[0] == "expr":
+                e = st[1]
+                if is_node(e) and e[0] == "mcall" and e[2] == "write_le" and len(e[4]) == 1 and _ident(e[4][0]) in fresh and _ident(e[1]) in params and st[2]:
+                    wrote[_ident(e[4][0])] = params.index(_ident(e[1]))
+                    continue
+                if is_node(e) and e[0] == "return":
+                    e = e[1]
+                tail = e
+            else:
+                ok = False
+        if not ok or tail is None or len(wrote) != 1:
+            continue
+        t = _strip_value(tail)
+        tmp = None
+        if is_node(t) and t[0] == "mcall" and t[2] == "len" and not t[4]:
+            tmp = _ident(t[1])
+        elif _ident(t) in lens:
+            tmp = lens[_ident(t)]
+        if tmp in wrote:
+            out[it["name"]] = wrote[tmp]
+    return out
+
+
+def _callee_name(pathexpr):
+    """last segment of a call path without turbofish: `a::b::f::<T>` -> `f`"""
+    p = path_of(pathexpr) or ""
+    p = re.sub(r"::<[^()]*>$", "", p)
+    p = re.sub(r"<.*$", "", p)
+    return p.split("::")[-1]
+
+
+def _measures(e, var, wrote, helpers, named):
+    """does expression e contain the re-serialised length of `var`: `TMP.len()` after `var.write_le(&mut TMP)`, `helper(&var)` /
+    `var.helper()` for an encoded-length helper, or a local that was bound to one of these"""
+    for n in walk(e):
+        if n[0] == "mcall" and n[2] == "len" and not n[4] and _ident(n[1]) in wrote:
+            return True
+        if n[0] == "call":
+            h = _callee_name(n[1])
+            if h in helpers and helpers[h] < len(n[2]) and _ident(n[2][helpers[h]]) == var:
+                return True
+        if n[0] == "mcall" and n[2] in helpers and helpers[n[2]] == 0 and _ident(n[1]) == var:
+            return True
+        if n[0] == "path" and n[1] in named:
+            return True
+    return False
+
+
+def nested_decode_sites(body, helpers=None):
     """for every `let V = T::from_le(&buf[P..])`: how the cursor is advanced afterwards.
     yields dict(var, callee, pos, verdict, detail)"""
+    helpers = helpers or {}
     for stmts, in_loop in _stmts_blocks(body):
         for i, st in enumerate(stmts):
             if st[0] != "let" or st[2] is None or st[1][0] != "pident":
@@ -75,6 +191,7 @@ def nested_decode_sites(body):
             var = st[1][1]
             callee, pos = d
             wrote = set()
+            named = set()          # locals bound to the encoded length of `var`
             verdict, detail = None, ""
             for st2 in stmts[i + 1:]:
                 # V.write_le(&mut TMP)
@@ -85,11 +202,15 @@ def nested_decode_sites(body):
                 if sp:
                     e = render(sp[0][4][0])
                     core_pos = re.sub(r"\s+as\s+\w+|[()\s]", "", pos)
-                    if any(re.search(r"\b%s\.len\(\)" % re.escape(t), e) for t in wrote) and core_pos in re.sub(r"\s+as\s+\w+|[()\s]", "", e):
+                    if _measures(sp[0][4][0], var, wrote, helpers, named) and core_pos in re.sub(r"\s+as\s+\w+|[()\s]", "", e):
                         verdict, detail = "ok", e
                     else:
                         verdict, detail = "bad-advance", e
                     break
+                if st2[0] == "let" and st2[2] is not None and is_node(st2[1]) and st2[1][0] == "pident" and _measures(st2[2], var, wrote, helpers, named) \
+                        and not _reads(st2):
+                    named.add(st2[1][1])
+                    continue
                 if _reads(st2):
                     verdict, detail = "no-advance", render(st2[2] if st2[0] == "let" else st2[1])[:80]
                     break
@@ -238,19 +359,38 @@ def run(F, rep, core):
     rep.rule("C06-R9", "constant decoders: after decoding a nested variable-length item from `&buf[P..]` the cursor is advanced by that item's encoded "
                        "length (the length of its re-serialisation), before anything else is read")
     n9 = 0
+    helpers = encoded_len_helpers(core)
+    if helpers:
+        rep.note("C06-R9 encoded-length helpers (a call of one is the re-serialised length of its argument)", sorted(helpers))
+    # a decode loop that several decoders share through a private helper is one site per calling decoder (the floor counts mechanisms, not copies)
+    callers = {}
+    free_fns = {it["name"] for it in core if it["k"] == "fn"}
+    for it in core:
+        if it["k"] not in ("method", "fn") or it.get("body") is None:
+            continue
+        me = ("%s::%s" % (X.type_head(it["self"]), it["name"])) if it["k"] == "method" else it["name"]
+        for c in find(it["body"], "call"):
+            h = _callee_name(c[1])
+            if h in free_fns and h != it["name"]:
+                callers.setdefault(h, set()).add(me)
     for it in core:
         if it["k"] not in ("method", "fn") or it.get("body") is None:
             continue
         owner = ("%s::%s" % (X.type_head(it["self"]), it["name"])) if it["k"] == "method" else it["name"]
         per = {}
-        for s in nested_decode_sites(it["body"]):
-            n9 += 1
+        shared = sorted(callers.get(it["name"], ())) if it["k"] == "fn" else []
+        for s in nested_decode_sites(it["body"], helpers):
+            n9 += max(1, len(shared))
             k = "%s:%s<-%s" % (owner, s["var"], last_seg(s["callee"].rsplit("::", 1)[0]) if "::" in s["callee"] else s["callee"])
             per[k] = per.get(k, 0) + 1
             if per[k] > 1:
                 k += "#%d" % per[k]
+            # one obligation per decoder that reaches the site (the site itself is judged once, below)
+            for c in shared[1:]:
+                if s["verdict"] in ("ok", "last"):
+                    rep.ok("C06-R9", "%s>%s" % (c, k))
             ok = s["verdict"] in ("ok", "last")
-            msg = {"bad-advance": "advances the cursor by `%s`, which is not the encoded length of `%s` (no `%s.write_le(&mut tmp); tmp.len()`): every later field is read from the wrong offset when the item is not exactly that long" % (s["detail"], s["var"], s["var"]),
+            msg = {"bad-advance": "advances the cursor by `%s`, which is not the encoded length of `%s` (no `%s.write_le(&mut tmp); tmp.len()`, directly or through a helper that does exactly that): every later field is read from the wrong offset when the item is not exactly that long" % (s["detail"], s["var"], s["var"]),
                    "no-advance": "reads on (`%s`) without advancing the cursor past `%s`" % (s["detail"], s["var"]),
                    "no-advance-loop": "decodes `%s` inside a loop without advancing the cursor: every iteration decodes the same bytes" % s["var"]}.get(s["verdict"], "")
             rep.check(ok, "C06-R9", k, "%s decodes `%s` with %s at offset %s and %s" % (owner, s["var"], s["callee"], s["pos"], msg),
